@@ -49,11 +49,17 @@ def gen_world(rng, i, tier):
     # /dev/null links inside the tree are symbolic links and would offend the no-symlink rule by themselves:
     # keep them only when that rule is not active so that the enumeration stays single-fault
     if "symlink" in w["rules"]:
+        cons = set(consulted_of(w))
         for n in w["nodes"]:
-            if n["t"] == "l":
+            if n["t"] == "l" and (norm(n["p"]) in cons or n.get("to") != "/dev/null"):
                 n["t"] = "f"
                 n["entries"] = []
                 n.pop("to", None)
+            elif n["t"] == "f" and norm(n["p"]) not in cons and rng.chance(0.5):
+                # directory members that are NOT consulted (no suffix, other name) may be links: they are no business of the rule
+                n["t"] = "l"
+                n["to"] = "/dev/null"
+                n.pop("entries", None)
     return w
 
 
@@ -69,7 +75,8 @@ def variants(world):
     """list of (label, {path: set(offences)})"""
     cons = consulted_of(world)
     out = [("clean", {})]
-    for k, p in enumerate(cons):
+    for k in gen.enum_positions(len(cons), world["attr_seed"]):
+        p = cons[k]
         for r in world["rules"]:
             out.append(("%s@%d" % (r, k), {p: [r]}))
     r = Rng(world["attr_seed"])
